@@ -228,14 +228,14 @@ YL = {'params': 'x: &f64', 'ret': 'o: f64', 'ensures': ['rv(o) == r_ylogy(rv(*x)
 deviance = Fn(FAM + '{impl ExponentialFamily}::deviance', ret='r', level='L1', valid='y@.len() == mu@.len()', panics={1: 'REJECT'},
               ensures=['C06.deviance.valid:: y@.len() == mu@.len()', 'C06.deviance.family:: ' + DEV_DOM + ' ==> rv(r) == dev_factor(*self) * dev_sum(*self, y@, mu@, y@.len() as int)'],
               rewrites=[('norm(&vsub(y, mu)).powi(2)', '({ let d_ = vsub(y, mu); let nr_ = norm(&d_); proof { lemma_gauss_dev(d_@, y@, mu@, n as int); ax_sqrt(dsum(d_@, d_@, n as int)); } nr_.powi(2) })', 'R31'),
-                        ('(0..n).map(|i| y[i] * mu[i].ln() + (1. - y[i]) * (1. - mu[i]).ln()).sum::<f64>() * -2.',
-                         '({ let mut acc_ = 0.; for t_ in 0..n { acc_ = acc_ + (y[t_] * mu[t_].ln() + (1. - y[t_]) * (1. - mu[t_]).ln()); } acc_ }) * -2.', 'R37: map-sum as its defining loop'),
+                        (r'(?s)\(0\.\.n\)\.map\(\|i\|\s*(.*?)\)\s*\.sum::<f64>\(\)', r'({ let mut acc_ = 0.; for t_ in 0..n { let i = t_; acc_ = acc_ + (\1); } acc_ })',
+                         'R37: `(0..n).map(|i| E).sum::<f64>()` as its defining loop (E kept verbatim)', 're'),
                         ('if *x == 0. { 0. } else { x * x.ln() }).collect::<Vec<_>>()', 'if *x == 0. { 0. } else { *x * x.ln() }).collect::<Vec<f64>>()', 'R17 + R26b'),
-                        ('(0..y.len()).map(|i| mu[i] - y[i] - y[i] * mu[i].ln() + ylogy[i]).sum::<f64>()',
-                         '({ let mut acc_ = 0.; for t_ in 0..y.len() { acc_ = acc_ + (mu[t_] - y[t_] - y[t_] * mu[t_].ln() + ylogy[t_]); } acc_ })', 'R37'),
-                        ('(y.iter().zip(mu).map(|(yv, muv)| (yv - muv) / (muv) - (yv / muv).ln()).sum::<f64>())',
-                         '({ let mut acc_ = 0.; for t_ in 0..y.len() { let yv = &y[t_]; let muv = &mu[t_]; acc_ = acc_ + ((*yv - *muv) / (*muv) - (*yv / *muv).ln()); } acc_ })',
-                         'R37 (zip of two slices of equal length: the pairs (y[t], mu[t]) in order) + R17')],
+                        (r'(?s)\(0\.\.y\.len\(\)\)\.map\(\|i\|\s*(.*?)\)\s*\.sum::<f64>\(\)', r'({ let mut acc_ = 0.; for t_ in 0..y.len() { let i = t_; acc_ = acc_ + (\1); } acc_ })',
+                         'R37 (E kept verbatim)', 're'),
+                        (r'(?s)\(y\.iter\(\)\.zip\(mu\)\.map\(\|\(yv, muv\)\|\s*(.*?)\)\s*\.sum::<f64>\(\)\)',
+                         r'({ let mut acc_ = 0.; for t_ in 0..y.len() { let yv = y[t_]; let muv = mu[t_]; acc_ = acc_ + (\1); } acc_ })',
+                         'R37 (zip of two slices of equal length: the pairs (y[t], mu[t]) in order; the closure parameters are references to these elements, bound here by value - f64 is Copy) (E kept verbatim)', 're')],
               closures={1: YL, 2: YL},
               loops={1: DEV_LOOP('Bernoulli'), 2: POIS_LOOP('QuasiPoisson'), 3: POIS_LOOP('Poisson'), 4: DEV_LOOP('Gamma'), 5: DEV_LOOP('Exponential')})
 UNITS.append(Unit('C06_deviance', 'C06', [deviance], use=[c04.KERNELS['vsub'], c04.norm], types=TYPES, type_spec=core.TYPE_SPEC, spec=SPEC + DEV_SPEC, preludes=PRE, broadcast=BC, level='L1',
